@@ -252,3 +252,30 @@ Theorem chunked_model_equal_whole {V} (o : ops V) (L : laws o) (SC : sum_closed 
   apply_across_chunks o r (core_merge r) ng chunks
   = chunk_cells o r ng (concat (map (fun ch => unify_rows (fst ch) (snd ch)) chunks)).
 Proof. intros Hr Hok. exact (chunked_keys_equal_whole_keys o L SC r ng chunks Hr Hok). Qed.
+
+(* ---- transform on chunk-factorized keys: unify the codes, then gather ---- *)
+Lemma unify_code_nonneg p k : 0 <= k -> unify_code p k = Z.of_nat (get 0%nat p (Z.to_nat k)).
+Proof. intros H. unfold unify_code. destruct (k <? 0) eqn:E; [apply Z.ltb_lt in E; lia|reflexivity]. Qed.
+Lemma unify_code_null p k : k < 0 -> unify_code p k = -1.
+Proof. intros H. unfold unify_code. destruct (k <? 0) eqn:E; [reflexivity|apply Z.ltb_ge in E; lia]. Qed.
+
+(* a row of a key chunk receives the cell of its GLOBAL group: the pointer image of its local
+   code; a row with a null key reads the trailing cell *)
+Theorem transform_through_pointer {V} (o : ops V) (result : list V) p codes i :
+  (i < length codes)%nat ->
+  get (null o) (transform_gather o result (unify_codes p codes)) i =
+    (if get (-1) codes i <? 0
+     then get (null o) result (Z.to_nat (-1 + Z.of_nat (length result)))
+     else get (null o) result (get 0%nat p (Z.to_nat (get (-1) codes i)))).
+Proof.
+  intros Hi. unfold transform_gather, unify_codes.
+  assert (Hm : forall {A B} (f : A -> B) (da : A) (db : B) (l : list A) j, (j < length l)%nat -> get db (map f l) j = f (get da l j)).
+  { intros A B f da db l. unfold get. induction l as [|h t IH]; intros [|j] Hj; simpl in *; try lia; auto. apply IH; lia. }
+  rewrite (Hm _ _ _ (-1) (null o)) by (rewrite map_length; auto).
+  rewrite (Hm _ _ _ (-1) (-1)) by auto.
+  destruct (get (-1) codes i <? 0) eqn:E.
+  - apply Z.ltb_lt in E. rewrite unify_code_null by auto. reflexivity.
+  - apply Z.ltb_ge in E. rewrite unify_code_nonneg by auto.
+    destruct (Z.of_nat (get 0%nat p (Z.to_nat (get (-1) codes i))) <? 0) eqn:E2; [apply Z.ltb_lt in E2; lia|].
+    now rewrite Nat2Z.id.
+Qed.
